@@ -21,7 +21,7 @@
   op-list computation, not proved): reset depth and effective depth (they need the order of the operations on the
   wires of the prepared copy, not only their multiset).
 -/
-import GraphiqModel.Proofs.Unwrap
+import GraphiqModel.Proofs.WireOps
 namespace Graphiq.C18
 open Graphiq Graphiq.Dag Graphiq.Metrics
 
@@ -121,6 +121,17 @@ theorem reg_gate_history_is_wire {c : Dag} (h : DagInv c) :
       ∀ r, r.idx < c.regs r.ty → c.regGateHistory r = .ok (P r) := by
   obtain ⟨P, g⟩ := h
   exact ⟨P, g.inv.edges_iff, g.mem.mem_q, fun r hl => regGateHistory_eq_wire g.inv hl⟩
+
+/-- **`reg_gate_history` against the operation list.**  For every circuit built by `add`, the operations held by the
+    nodes that `reg_gate_history(r)` returns (between the Input and the Output node) are exactly the operations of the
+    list that act on register `r` (quantum or classical), in list order. -/
+theorem reg_gate_history_eq_op_list (ne np nc : Nat) (seq : List Op) (hseq : PlainSeq seq)
+    (hok : (build ne np nc seq).2 = none) (r : Reg) (hl : r.idx < (build ne np nc seq).1.regs r.ty) :
+    ∃ h, (build ne np nc seq).1.regGateHistory r = .ok h ∧
+      wireOps (build ne np nc seq).1 h = seq.filter (fun o => decide (r ∈ opRegs o)) := by
+  obtain ⟨_, ⟨P, g⟩⟩ := build_spec ne np nc seq (fun op h => (hseq op h).1) hok
+  have hW := build_wireSeq ne np nc seq (fun op h => (hseq op h).1) hok
+  exact ⟨P r, regGateHistory_eq_wire g.inv hl, hW.1 P g.inv r hl⟩
 
 /-- **`register_depth` = ASAP layering.**  For every circuit built by `add` from any plain operation list, and every
     register type, `calculate_reg_depth` — i.e. the un-memoised recursion `_max_depth(out)` run with the fuel the model
